@@ -51,7 +51,7 @@ def main(argv=None):
 
     replay_paths = []
     if unknown and not a.replay:
-        rdir = os.path.join(harness.VERIF, 'replay', pid)
+        rdir = os.path.join(os.environ.get('VERIF_REPLAY_DIR') or os.path.join(harness.VERIF, 'replay'), pid)
         os.makedirs(rdir, exist_ok=True)
         seen_kinds = set()
         for v in unknown:
@@ -89,8 +89,9 @@ def main(argv=None):
           'coverage': cov, 'assumptions': getattr(mod, 'ASSUMPTIONS', []),
           'wall_s': round(time.time() - t0, 2), 'violations': int(n_unknown)}
     if not a.replay:
-        os.makedirs(os.path.join(harness.VERIF, 'evidence'), exist_ok=True)
-        with open(os.path.join(harness.VERIF, 'evidence', pid + '.json'), 'w') as f:
+        evdir = os.environ.get('VERIF_EVIDENCE_DIR') or os.path.join(harness.VERIF, 'evidence')
+        os.makedirs(evdir, exist_ok=True)
+        with open(os.path.join(evdir, pid + '.json'), 'w') as f:
             json.dump(ev, f, indent=1, sort_keys=True)
             f.write('\n')
 
